@@ -106,6 +106,14 @@ class ScopeLifeDriver:
             w.do(f"c{args[0]}", "leave", "return")
         elif name == "ChildFail":
             w.do(f"c{args[0]}", "leave", "E")
+        elif name in ("ReleaseEnterLate", "ReleaseExitLate", "ChildEndLate"):
+            gate = {"ReleaseEnterLate": "de:d", "ReleaseExitLate": "dx:d", "ChildEndLate": "c"}[name] + str(args[0])
+            op = args[1] if name != "ChildEndLate" else ("leave", "return")
+            in_window = w.then_cancel_late(lambda: w.gates[gate].set_result(op), "1")
+            if not in_window:
+                o = self._obs()
+                o["late"] = "the task was not about to wake when it was cancelled"
+                return o
         elif name == "Cancel":
             w.cancel("1")
         else:
@@ -174,7 +182,8 @@ TRACE_KW = dict(
     variables=["cfg", "esp", "x", "obs"],
     constants=dict(ND=4, NC=3, Behaviours='{"ok", "fail", "susp"}', Bug='"none"'),
     config_vars=["cfg", "esp"],
-    actions=dict(Enter=0, ReleaseEnter=2, ReleaseExit=2, Leave=1, Spawn=1, ChildEnd=1, ChildFail=1, Cancel=0),
+    actions=dict(Enter=0, ReleaseEnter=2, ReleaseExit=2, Leave=1, Spawn=1, ChildEnd=1, ChildFail=1, Cancel=0,
+                 ReleaseEnterLate=2, ReleaseExitLate=2, ChildEndLate=1),
     invariants=["Restored", "BodyExcIdentity", "EnterOnce", "ExitOnce", "ExitArg", "EnterFailureNoBody", "SurfaceCleanup",
                 "CancelNotLost", "CancelAbortsMembers", "NoWaitAfterFailure", "DisposableStateVisible"])
 
